@@ -30,9 +30,9 @@ func init() {
 				Rule: "Checkpoint's success is dominated by note.Open with NewRFC6962Verifier(name, configured key), ParseCheckpoint of the verified text and origin == name; it returns that checkpoint and note", Run: c12d},
 			{ID: "C12.e", Title: "WITH-CUT-ENTRY", Template: "T4", MinInst: 2,
 				Rule: "every torchwood.NewClient call in the package passes WithCutEntry(cutEntry)", Run: c12e},
-			{ID: "C12.g", Title: "VERIFIER-STRICT", Template: "T2", MinInst: 8,
-				Rule: "the note verifier that Checkpoint relies on accepts only when every strictness guard holds (parse, origin, no extension, exhaustive blob parse, algorithms) - as C11.c: unsigned content cannot ride on a signed checkpoint",
-				Run:  c11c},
+			{ID: "C12.g", Title: "VERIFIER-STRICT", Template: "T2", MinInst: 3,
+				Rule: "the note verifier that Checkpoint relies on accepts only when the text parses as a checkpoint, its origin is the verifier's name and it has no extension line (the guards of C11.c that decide WHAT content is covered by the log's signature): unsigned content cannot ride on a signed checkpoint",
+				Run:  func(c *Ctx) { c11cOnly(c, []string{"checkpoint parses", "origin == name", "no extension"}) }},
 			{ID: "C12.h", Title: "LEAF-CODEC", Template: "T5a", MinInst: 6,
 				Rule: "the entry that is hashed for authentication re-encodes exactly what was parsed: tile-leaf writer and reader agree path-wise, the extension codec agrees and the 40-bit index codec uses one shift table (as C10.a, C10.c, C10.d), so a tampered field cannot parse to one value and hash as another",
 				Run:  func(c *Ctx) { c10a(c); c10c(c); c10d(c) }},
